@@ -1,13 +1,15 @@
 """Second opinion on extraction (thorough tier): a sample of the model calls the OCaml driver answered is
 evaluated again INSIDE Coq with vm_compute on the Gallina definitions themselves, and the two answers
 are compared inside Coq.  Covers the entry points whose arguments are plain data (no oracle closures
-other than a finite MAC table): email_valid, validate, netset_has, forwarded_query, auth_request_shape.
+other than a finite MAC table): email_valid, validate, cs_load, cs_load_ok, netset_has, forwarded_query,
+auth_request_shape.
 A disagreement means the extracted program or its OCaml glue does not compute what the theorems are about."""
 import os, re, subprocess, time
 
 from . import core
 
 MAXN = 250
+BUDGET = 60000   # literal bytes per entry point (about 20 s of coqc)
 
 
 # ---- S-expression reader (the case-file dialect: "hex" strings, integers, symbols, lists) ----
@@ -116,6 +118,37 @@ def _validate(args, out):
     return "(res_eqb (%s) %s) && (res_eqb (%s) %s)" % (call(now0), exp, call(now1), exp)
 
 
+def c_ccfg(v):
+    name, path, domains, secure, httponly, samesite, expire = v
+    return ("{| c_name := %s; c_path := %s; c_domains := %s; c_secure := %s; c_httponly := %s; c_samesite := %s; c_expire_ns := %s |}"
+            % (c_str(name), c_str(path), c_list(c_str, domains), c_bool(secure), c_bool(httponly), c_n(samesite), c_z(expire)))
+
+
+def c_cookies(v):
+    return c_list(lambda kv: "(%s, %s)" % (c_str(kv[0]), c_str(kv[1])), v)
+
+
+@head("cs_load_ok")
+def _cs_load_ok(args, out):
+    macs, cfg, cookies, now0, now1 = args
+    if out == ("sym", "ambiguous"):
+        return None
+    def call(now):
+        return "(match store_load (tabf %s) %s %s %s with Some _ => true | None => false end)" % (c_table(macs), c_ccfg(cfg), c_cookies(cookies), c_z(now))
+    return "(Bool.eqb %s %s) && (Bool.eqb %s %s)" % (call(now0), c_bool(out), call(now1), c_bool(out))
+
+
+@head("cs_load")
+def _cs_load(args, out):
+    macs, cfg, cookies, now0, now1 = args
+    if out == ("sym", "ambiguous"):
+        return None
+    exp = c_opt(lambda p: "(%s, %s)" % (c_str(p[0]), c_z(p[1])), out)
+    def call(now):
+        return "store_load (tabf %s) %s %s %s" % (c_table(macs), c_ccfg(cfg), c_cookies(cookies), c_z(now))
+    return "(res_eqb (%s) %s) && (res_eqb (%s) %s)" % (call(now0), exp, call(now1), exp)
+
+
 @head("netset_has")
 def _netset(args, out):
     nets, ip = args
@@ -141,7 +174,7 @@ PRELUDE = """From Coq Require Import List Bool ZArith NArith.
 Import ListNotations.
 From V.Lib Require Import Bytes Base64 NetAddr.
 From V.Gen Require Import Consts.
-From V.Model Require Import Signed Authz Bypass Upstream Symbolic.
+From V.Model Require Import Signed Cookies CookieStore Authz Bypass Upstream Symbolic.
 Open Scope bool_scope.
 (* the OCaml driver's finite MAC table: unknown inputs map to a value that is not a byte string *)
 Definition tabf (t : list (str * str)) (k : str) : str := match assoc k t with Some v => v | None => [256%N] end.
@@ -169,8 +202,19 @@ def run(prop, cases, results):
     ids = []
     skipped = 0
     for h, lst in picked.items():
-        step = max(1, len(lst) // MAXN)
-        for cid, call, outtxt in lst[::step][:MAXN]:
+        # byte-string literals are slow to parse inside Coq: an evenly spaced sample, smallest calls first,
+        # within a budget of literal bytes per entry point
+        step = max(1, len(lst) // (4 * MAXN))
+        sample = sorted(lst[::step], key=lambda x: len(x[1]))[:MAXN]
+        budget = BUDGET
+        chosen = []
+        for item in sample:
+            cost = len(item[1]) // 2
+            if cost > budget:
+                break
+            budget -= cost
+            chosen.append(item)
+        for cid, call, outtxt in chosen:
             try:
                 sx = parse(call)
                 out = parse(outtxt)
